@@ -993,7 +993,10 @@ def case_explicit(ctx, rng, tier, which):
     elif which == 'spectator':
         # inputs the function does not depend on (derivative exactly zero), in the first / middle / last slot and on any layout;
         # vector-valued functions whose outputs ignore different inputs
-        c, dd = make_pair(rng, (0.5, 2.0), (0.5, 2.0), str(rng.choice(RELATIONS)), tier)
+        # (a second pair with its own covariance input of the same name would carry another matrix: legitimately refused)
+        c, dd = make_pair(rng, (0.5, 2.0), (0.5, 2.0), str(rng.choice([r for r in RELATIONS if not r.startswith('cov')])), tier)
+        if rng.random() < 0.3:
+            c = 0.7 * a + 0.3              # a spectator with the layout of a (covariance input included)
         pos = int(rng.integers(0, 3))
         ins = [a, b]
         ins.insert(pos, c)
